@@ -258,6 +258,10 @@ func (g *c17Engine) run(tp *toolPlan) (*toolVerdict, map[string]int, error) {
 		want[ref.FileNames[l]+".go"] = true
 	}
 	for _, en := range ents {
+		if !want[en.Name()] && !strays[en.Name()] && !strings.HasSuffix(en.Name(), ".go") {
+			stats["other_files_left_in_the_directory_not_go_sources"]++ // e.g. a backup copy: not part of the package, the statement does not forbid it
+			continue
+		}
 		if !want[en.Name()] && !strays[en.Name()] {
 			return &toolVerdict{Class: "extra-file", Key: "extra-file/" + en.Name(), Detail: "unexpected file " + en.Name() + " in internal/wordlist"}, stats, nil
 		}
